@@ -65,7 +65,7 @@ Print Assumptions C12_route_leader.
 (* and the request then goes to that broker's connection group *)
 Theorem C12_send_to_leader : forall c conns r fc b,
   route c r = Some (Ok b) -> 0 <= b_id b -> mhas Z.eqb conns (b_id b) = true ->
-  send_request c conns r fc = Sent [(TBroker (b_id b), api_of r)].
+  send_request c conns r fc = Sent [WReq (TBroker (b_id b)) (api_of r)].
 Proof. exact send_broker_message. Qed.
 Print Assumptions C12_send_to_leader.
 
@@ -121,7 +121,7 @@ Definition refute_md : metadata :=
 Theorem C12_route_controller : forall c conns api fc b,
   get_broker c (c_controller c) = Some b -> 0 <= b_id b -> mhas Z.eqb conns (b_id b) = true ->
   route_controller c = Ok b
-  /\ send_request c conns (RController api) fc = Sent [(TBroker (b_id b), api)].
+  /\ send_request c conns (RController api) fc = Sent [WReq (TBroker (b_id b)) api].
 Proof.
   intros c conns api fc b H Hn Hc. split; [exact (route_controller_known c b H)|].
   exact (send_broker_message c conns (RController api) fc b (f_equal Some (route_controller_known c b H)) Hn Hc).
@@ -134,7 +134,7 @@ Theorem C12_route_controller_unknown_refuted :
   exists m,
     let c := make_layout (normalize m) in
     brokers_wf c /\ get_broker c (c_controller c) = None
-    /\ send_request c (c_brokers c) (RController K_CreateTopics) None = Sent [(TBroker 0, K_CreateTopics)].
+    /\ send_request c (c_brokers c) (RController K_CreateTopics) (fun _ _ => None) = Sent [WReq (TBroker 0) K_CreateTopics].
 Proof.
   exists refute_md. cbv zeta.
   split; [apply make_layout_brokers_wf; vm_compute; intros b [<-|[<-|[]]]; discriminate|].
@@ -142,26 +142,40 @@ Proof.
 Qed.
 Print Assumptions C12_route_controller_unknown_refuted.
 
-(* ---- group and transactional requests: a find-coordinator exchange on the control
-        connection; an error code in the answer fails the request and nothing is sent after
-        the lookup; otherwise the request goes to the node the answer names ---- *)
-Theorem C12_route_coordinator : forall c conns api key a,
-  (fc_err a = 0 -> 0 <= fc_node a -> mhas Z.eqb conns (fc_node a) = true ->
-     send_request c conns (RGroup api key) (Some a) = Sent [(TControl, K_FindCoordinator); (TBroker (fc_node a), api)]
-     /\ send_request c conns (RTxn api key) (Some a) = Sent [(TControl, K_FindCoordinator); (TBroker (fc_node a), api)])
-  /\ (fc_err a = 0 -> 0 <= fc_node a -> mhas Z.eqb conns (fc_node a) = false ->
-     send_request c conns (RGroup api key) (Some a) = Rejected [(TControl, K_FindCoordinator)] RejBrokerNotAvailable
-     /\ send_request c conns (RTxn api key) (Some a) = Rejected [(TControl, K_FindCoordinator)] RejBrokerNotAvailable)
-  /\ (fc_err a <> 0 ->
-     send_request c conns (RGroup api key) (Some a) = Rejected [(TControl, K_FindCoordinator)] (RejCoordinatorError (fc_err a))
-     /\ send_request c conns (RTxn api key) (Some a) = Rejected [(TControl, K_FindCoordinator)] (RejCoordinatorError (fc_err a))).
+(* ---- group and transactional requests: a find-coordinator exchange first.  [coord ktype key]
+        is how the cluster answers a lookup; group and transaction coordinator of the same
+        string are in general different brokers.  A GroupMessage looks up (Group, m.Group()), a
+        TransactionalMessage (Transaction, m.Transaction()): the lookup on the wire carries the
+        matching key type, and the request goes to the node THAT lookup names.  An error code in
+        the answer, a failed exchange, or a node without connection group fails the request
+        and nothing is sent after the lookup. ---- *)
+Theorem C12_route_coordinator : forall c conns coord api key,
+  send_request c conns (RGroup api key) coord = via_coordinator conns coord KT_Group key api
+  /\ send_request c conns (RTxn api key) coord = via_coordinator conns coord KT_Txn key api
+  /\ forall kt,
+      (forall a, coord kt key = Some a -> fc_err a = 0 -> 0 <= fc_node a -> mhas Z.eqb conns (fc_node a) = true ->
+         via_coordinator conns coord kt key api = Sent [WFind kt key; WReq (TBroker (fc_node a)) api])
+      /\ (forall a, coord kt key = Some a -> fc_err a = 0 -> 0 <= fc_node a -> mhas Z.eqb conns (fc_node a) = false ->
+         via_coordinator conns coord kt key api = Rejected [WFind kt key] RejBrokerNotAvailable)
+      /\ (forall a, coord kt key = Some a -> fc_err a <> 0 ->
+         via_coordinator conns coord kt key api = Rejected [WFind kt key] (RejCoordinatorError (fc_err a)))
+      /\ (coord kt key = None ->
+         via_coordinator conns coord kt key api = Rejected [WFind kt key] RejCoordinatorLookup).
 Proof.
-  intros c conns api key a. split; [|split].
-  - intros He Hn Hc. split; [exact (send_group c conns api key a He Hn Hc) | exact (send_txn c conns api key a He Hn Hc)].
-  - exact (send_coordinator_unknown_broker c conns api key a).
-  - exact (send_coordinator_error c conns api key a).
+  intros c conns coord api key. split; [reflexivity|]. split; [reflexivity|]. intro kt.
+  split; [exact (via_coordinator_ok conns coord kt key api)|].
+  split; [exact (via_coordinator_unknown_broker conns coord kt key api)|].
+  split; [exact (via_coordinator_error conns coord kt key api) | exact (via_coordinator_failed conns coord kt key api)].
 Qed.
 Print Assumptions C12_route_coordinator.
+
+(* with distinct coordinators for the same string the two kinds of request go to different brokers *)
+Example C12_coordinator_key_type_example :
+  let coord := fun kt (_ : name) => Some {| fc_err := 0; fc_node := if kt =? KT_Txn then 2 else 1 |} in
+  let conns := [(1, {| b_id := 1; b_addr := 1 |}); (2, {| b_id := 2; b_addr := 2 |})] in
+  send_request empty_cluster conns (keyed_request 13 [120%N]) coord = Sent [WFind 0 [120%N]; WReq (TBroker 1) 13]
+  /\ send_request empty_cluster conns (keyed_request 22 [120%N]) coord = Sent [WFind 1 [120%N]; WReq (TBroker 2) 22].
+Proof. vm_compute. split; reflexivity. Qed.
 
 (* which API keys take the coordinator route: every request the Kafka protocol addresses to the
    group coordinator (Heartbeat included) is a GroupMessage, every one addressed to the
@@ -179,7 +193,7 @@ Proof. exact coordinator_apis_keyed. Qed.
 Print Assumptions C12_coordinator_apis_keyed.
 
 (* everything else (metadata, find-coordinator, ...): the control connection, i.e. any broker *)
-Theorem C12_route_any : forall c conns api fc, send_request c conns (ROther api) fc = Sent [(TControl, api)].
+Theorem C12_route_any : forall c conns api fc, send_request c conns (ROther api) fc = Sent [WReq TControl api].
 Proof. exact send_other. Qed.
 Print Assumptions C12_route_any.
 
@@ -256,16 +270,32 @@ Theorem C12_conns_follow_layout : forall ls,
 Proof. exact conns_follow_layout. Qed.
 Print Assumptions C12_conns_follow_layout.
 
-(* a refresh is always enabled: from the select both the timer (a random time below
-   MetadataTTL) and a wake-up start one; one in flight completes into the select; and a
-   successful create-topics forces one *)
-Theorem C12_refresh_enabled : forall ph,
-  match ph with
-  | DWaiting => discover_step ph DTimer = Some (DFetching false) /\ discover_step ph DWake = Some (DFetching true)
-  | DFetching n => discover_step ph DDone = Some DWaiting
-  end.
+(* ---- the refresh loop (discover) with its failure branches ---- *)
+(* from the select both the timer (a random time below MetadataTTL) and a wake-up start a refresh *)
+Theorem C12_refresh_enabled : forall s,
+  d_phase s = DWaiting ->
+  (exists s1, discover_step s DTimer = Some s1 /\ d_phase s1 = DFetching false /\ d_pool s1 = d_pool s)
+  /\ (exists s2, discover_step s DWake = Some s2 /\ d_phase s2 = DFetching true /\ d_pool s2 = d_pool s).
 Proof. exact discover_refresh_enabled. Qed.
 Print Assumptions C12_refresh_enabled.
+
+(* only the cancellation of the pool's context (pool closed) ends the loop: no answered, failed
+   or timed-out exchange does *)
+Theorem C12_refresh_stops_only_when_closed : forall s l s',
+  discover_step s l = Some s' -> d_phase s' = DStopped -> d_ctx_err s <> None.
+Proof. exact discover_stops_only_when_closed. Qed.
+Print Assumptions C12_refresh_stops_only_when_closed.
+
+(* after ANY number of refreshes that failed (i/o error), timed out (FFailed E_deadline) or could
+   not connect, the next turn sends another Metadata request and an answered one installs the
+   brokers' layout *)
+Theorem C12_refresh_survives_failures : forall (fs : list (bool * refresh_result)) s w m,
+  d_phase s = DWaiting -> d_ctx_err s = None ->
+  Forall (fun f => is_failure (snd f) = true) fs ->
+  exists s', discover_run s (flat_map (fun f => refresh_turn (fst f) (snd f)) fs ++ refresh_turn w (FAnswered m)) = Some s'
+             /\ d_phase s' = DWaiting /\ d_ctx_err s' = None /\ view_of m (d_pool s').
+Proof. exact discover_survives_failures. Qed.
+Print Assumptions C12_refresh_survives_failures.
 
 Theorem C12_create_topics_forces_refresh : forall tr,
   forces_refresh (QOne (RController K_CreateTopics)) (RTSend [Sent tr]) = true.
@@ -307,18 +337,30 @@ Qed.
 
 Example C12_follows_example :
   let ls := [LRefresh (Some refute_md) None; LRefresh None (Some 7%N); LRefresh (Some ex_md) None;
-             LRefresh None (Some 8%N); LRequest (QOne (RProduce [([116%N], [0])])) None] in
-  snd (pool_run pool_init ls) = [RTSend [Sent [(TBroker 1, K_Produce)]]].
+             LRefresh None (Some 8%N); LRequest (QOne (RProduce [([116%N], [0])])) (fun _ _ => None)] in
+  snd (pool_run pool_init ls) = [RTSend [Sent [WReq (TBroker 1) K_Produce]]].
 Proof. vm_compute. reflexivity. Qed.
 
 (* the former defect witnesses, now satisfying the property *)
 Example C12_regression_example :
   let c := make_layout (normalize refute_md) in
-  send_request c (c_brokers c) (RListOffsets [([116%N], [0])]) None = Rejected [] (RejRoute (ENoLeader [116%N] 0))
-  /\ send_request c (c_brokers c) (RListOffsets [([120%N], [0])]) None = Rejected [] (RejRoute (ENoTopic [120%N]))
-  /\ send_request c (c_brokers c) (RListOffsets [([116%N], [1])]) None = Sent [(TBroker 1, K_ListOffsets)]
-  /\ send_request c (c_brokers c) (keyed_request 12 [103%N]) (Some {| fc_err := 0; fc_node := 1 |})
-     = Sent [(TControl, K_FindCoordinator); (TBroker 1, 12)]
-  /\ send_request c (c_brokers c) (keyed_request 12 [103%N]) (Some {| fc_err := 15; fc_node := -1 |})
-     = Rejected [(TControl, K_FindCoordinator)] (RejCoordinatorError 15).
+  let nocoord : coord_fn := fun _ _ => None in
+  send_request c (c_brokers c) (RListOffsets [([116%N], [0])]) nocoord = Rejected [] (RejRoute (ENoLeader [116%N] 0))
+  /\ send_request c (c_brokers c) (RListOffsets [([120%N], [0])]) nocoord = Rejected [] (RejRoute (ENoTopic [120%N]))
+  /\ send_request c (c_brokers c) (RListOffsets [([116%N], [1])]) nocoord = Sent [WReq (TBroker 1) K_ListOffsets]
+  /\ send_request c (c_brokers c) (keyed_request 12 [103%N]) (fun _ _ => Some {| fc_err := 0; fc_node := 1 |})
+     = Sent [WFind 0 [103%N]; WReq (TBroker 1) 12]
+  /\ send_request c (c_brokers c) (keyed_request 12 [103%N]) (fun _ _ => Some {| fc_err := 15; fc_node := -1 |})
+     = Rejected [WFind 0 [103%N]] (RejCoordinatorError 15).
 Proof. vm_compute. repeat split; reflexivity. Qed.
+
+(* three timed-out refreshes and an i/o error, then the brokers answer: the loop is still running
+   and the new layout is in force *)
+Example C12_refresh_recovery_example :
+  let s0 := {| d_phase := DWaiting; d_pool := update pool_init (Some refute_md) None; d_ctx_err := None |} in
+  let ls := refresh_turn false (FFailed E_deadline) ++ refresh_turn false (FFailed E_deadline)
+            ++ refresh_turn true (FFailed E_deadline) ++ refresh_turn false (FFailed 9%N)
+            ++ refresh_turn false (FAnswered ex_md) in
+  option_map (fun s => (d_phase s, ps_layout (d_pool s))) (discover_run s0 ls)
+  = Some (DWaiting, make_layout (normalize ex_md)).
+Proof. vm_compute. reflexivity. Qed.
